@@ -376,7 +376,7 @@ def _metric(engine, st, fr, recv, name, a, kwargs, starkw, node):
         key = m.key if m.key is not None else z3.IntVal(0)
         cur = z3.Select(arr, key)
         st.ghost[gname] = z3.Store(arr, key, cur + amt if name == "inc" else cur - amt)
-        st.trace.append(Event("metric", meth=name, callee=m.name, args=[key, amt], site=engine.site(fr, node)))
+        st.trace.append(Event("metric", meth=name, callee=m.name, args=[key, amt], site=engine.site(fr, node), held=list(st.held)))
         yield st, None
         return
     raise Unsupported("metric.%s" % name)
